@@ -59,11 +59,13 @@ ASSUMPTIONS = [
     "where the docstring's operator formula and its printed S_(c) matrix disagree (ControlledZ sign, "
     "Squeezing2 factor 1/2, MachZehnder missing 1/2) the printed matrix / decomposition is the reference",
 ]
+# fractions of ALL evaluations of the run (unchanged tree: 0.078, 0.22, 0.07, 0.09); kept low
+# because a failing part stops early and must not turn exit 1 into 'generator degenerate'
 FLOORS = {
-    "cong:modes_nonascending": 0.02,
-    "cong:hbar_not_2": 0.05,
-    "blocks:large": 0.03,
-    "blocks:atom": 0.03,
+    "cong:modes_nonascending": 0.01,
+    "cong:hbar_not_2": 0.02,
+    "blocks:large": 0.01,
+    "blocks:atom": 0.01,
 }
 
 HBARS = [0.5, 1.0, 2.0, 3.7]
